@@ -47,6 +47,9 @@ struct Scn {
     tcp_cap: usize,
     /// a bulk download from t0 with a slow reader: (connect at ms, gap between reads ms)
     bulk: Option<(u64, u64)>,
+    /// the target's echo handlers wait this long before every read: data the peer wrote sits unread
+    /// in the target's receive buffer when the crash comes (0 = read eagerly)
+    slow_ms: u64,
     inject: Inject,
 }
 
@@ -197,10 +200,17 @@ async fn target_program(log: Log<Ev>, t: usize, inc: u32, p: TProbe, s: Scn) -> 
         let (mut st, peer) = lis.accept().await?;
         log.push(Ev::TAccept { t, inc, peer: peer.to_string() });
         let g = Guard::new(&gc);
+        let slow_ms = s.slow_ms;
         tokio::task::spawn_local(async move {
             let _g = g;
             let mut b = [0u8; 8];
-            while st.read_exact(&mut b).await.is_ok() {
+            loop {
+                if slow_ms > 0 {
+                    tokio::time::sleep(Duration::from_millis(slow_ms)).await;
+                }
+                if st.read_exact(&mut b).await.is_err() {
+                    break;
+                }
                 if u64::from_le_bytes(b) == u64::MAX {
                     // bulk download: write until the peer goes away (window-limited)
                     while st.write_all(&[7u8; 64]).await.is_ok() {}
@@ -327,6 +337,19 @@ async fn peer2_program(log: Log<Ev>, s: Scn) -> turmoil::Result {
 async fn iso_d(log: Log<Ev>) -> turmoil::Result {
     let lis = TcpListener::bind(("0.0.0.0", 7100)).await?;
     let udp = UdpSocket::bind(("0.0.0.0", 9200)).await?;
+    // d is a member of the same multicast group (same port) as the targets: a target going
+    // down must not take d's membership with it
+    let mc = UdpSocket::bind(("0.0.0.0", 9000)).await?;
+    mc.join_multicast_v4(GROUP, std::net::Ipv4Addr::UNSPECIFIED)?;
+    let l3 = log.clone();
+    tokio::task::spawn_local(async move {
+        let mut b = [0u8; 16];
+        loop {
+            if let Ok((n, from)) = mc.recv_from(&mut b).await {
+                l3.push(Ev::Iso { who: 1, what: format!("multicast {n} {:?} from {from} at {:?}", &b[..n], turmoil::sim_elapsed()) });
+            }
+        }
+    });
     let l2 = log.clone();
     tokio::task::spawn_local(async move {
         let mut b = [0u8; 16];
@@ -921,6 +944,7 @@ fn base(seed: u64) -> Scn {
         udp_period_ms: r.pick_copy(&[1u64, 2, 3]),
         tcp_cap: r.pick_copy(&[8usize, 12, 64]), // > number of concurrent connectors (pending SYNs >= capacity is a documented panic)
         bulk: if r.chance(0.6) { Some((r.range(2, 20), r.pick_copy(&[1u64, 3, 6]))) } else { None },
+        slow_ms: r.pick_copy(&[0u64, 0, 2, 5]),
         inject: Inject::None,
     }
 }
